@@ -54,6 +54,9 @@ func TestPropSignedRoundTrip(t *testing.T) {
 		cfg := doc.Config{
 			Anchors: rapid.IntRange(0, 2).Draw(t, "anchors") == 0, Timestamps: true, Floats: true,
 			BigMaps: true, BigMapOneIn: 4, EmptyKey: true, MergeKeyStr: true, EmptyMatrix: true, BothCommands: true, OddSources: true,
+			// documents may already carry signature blocks (left by an earlier run, stale by now): signing
+			// replaces them
+			Signature: true,
 		}
 		g := doc.NewG(t, cfg)
 		root := g.Pipeline()
